@@ -753,6 +753,12 @@ func runCase(res *mon.Result, c *c04case, st *stats) {
 		}
 		l := byTs[lastTok(got)]
 		if l == nil {
+			// the timestamp token itself may be what changed: fall back to its numeric value
+			if f, err := strconv.ParseFloat(lastTok(got), 64); err == nil && f >= 0 && f < 4294967296 {
+				l = byTsN[uint32(f)]
+			}
+		}
+		if l == nil {
 			viol(consumer+":unattributable", consumer+" holds bytes that correspond to no dispatched line", nil, map[string]interface{}{"delivered": fmt.Sprintf("%q", got)})
 			return nil
 		}
